@@ -910,6 +910,10 @@ type ServerResp struct {
 	TrailersOnly bool
 	// CompressEnd: compress the Connect end-stream / gRPC-Web trailer frame.
 	CompressEnd bool
+	// TrailerSpelling: how the lines of a gRPC-Web trailer frame are written (HTTP/1 field
+	// syntax allows optional whitespace around the value): 0 "k: v", 1 "k:v" (what Envoy's
+	// grpc_web filter emits), 2 "k:  v  ", 3 "k:<TAB>v".
+	TrailerSpelling int
 }
 
 // ServerOut is the encoded response.
@@ -1076,7 +1080,16 @@ func (s *ServerResp) Encode() *ServerOut {
 		sort.Strings(keys)
 		for _, k := range keys {
 			for _, v := range tr[k] {
-				fmt.Fprintf(&tb, "%s: %s\r\n", strings.ToLower(k), v)
+				switch s.TrailerSpelling {
+				case 1:
+					fmt.Fprintf(&tb, "%s:%s\r\n", strings.ToLower(k), v)
+				case 2:
+					fmt.Fprintf(&tb, "%s:  %s  \r\n", strings.ToLower(k), v)
+				case 3:
+					fmt.Fprintf(&tb, "%s:\t%s\r\n", strings.ToLower(k), v)
+				default:
+					fmt.Fprintf(&tb, "%s: %s\r\n", strings.ToLower(k), v)
+				}
 			}
 		}
 		fl, p := byte(0x80), tb.Bytes()
